@@ -30,6 +30,9 @@ func init() {
 		func(t *vcTrial) { vcRunC07(t, vc07Cfg{Kind: "fdconn", Reads: 2, Force: "timeout", TimeoutKind: "deadline"}) },
 		func(t *vcTrial) { vcRunC07(t, vc07Cfg{Kind: "dial", Reads: 4, Force: "timeout", TimeoutKind: "timeout"}) },
 		func(t *vcTrial) { vcRunC07(t, vc07Cfg{Kind: "accept-preptimeout", Reads: 2}) },
+		func(t *vcTrial) { vcRunC07(t, vc07Cfg{Kind: "dial", Reads: 1, Force: "dataclose", TimeoutKind: "timeout"}) },
+		func(t *vcTrial) { vcRunC07(t, vc07Cfg{Kind: "fdconn", Reads: 1, Force: "dataclose", TimeoutKind: "deadline"}) },
+		func(t *vcTrial) { vcRunC07(t, vc07Cfg{Kind: "dial", Reads: 1, Force: "dataclose", TimeoutKind: "none"}) },
 		func(t *vcTrial) { vcRunC07(t, vc07Cfg{Kind: "accept-hupwait", Reads: 2, Force: "peerclose", TimeoutKind: "none"}) },
 		func(t *vcTrial) { vcRunC07(t, vc07Cfg{Kind: "accept-hupwait", Reads: 3, Force: "peerclose", TimeoutKind: "timeout"}) },
 		func(t *vcTrial) {
@@ -262,7 +265,7 @@ func vcRunC07(t *vcTrial, cfg vc07Cfg) {
 		}
 		class := cfg.Force
 		if class == "" {
-			class = []string{"data", "data", "data", "timeout", "peerclose", "localclose", "buffered"}[r.intn(7)]
+			class = []string{"data", "data", "data", "timeout", "peerclose", "localclose", "buffered", "dataclose"}[r.intn(8)]
 		}
 		tk := cfg.TimeoutKind
 		if tk == "" {
@@ -327,6 +330,7 @@ func vcRunC07(t *vcTrial, cfg vc07Cfg) {
 			}
 		}
 		// ---- start the read
+		rmark := vcTraceMark()
 		resCh := make(chan vc07Res, 1)
 		lenAt := inner.inputBuffer.Len()
 		var callStart time.Time
@@ -415,6 +419,14 @@ func vcRunC07(t *vcTrial, cfg vc07Cfg) {
 							}
 						}
 					}
+				case "dataclose":
+					// exactly the awaited bytes and the close right behind them: the bytes are buffered
+					// first, the read succeeds ("if the connection closes *first* it returns ErrEOF")
+					if missing > 0 {
+						send(missing)
+					}
+					peer.close()
+					peerClosed = true
 				case "timeout":
 					if missing > 1 && r.chance(70) {
 						send(r.rng(1, missing-1)) // some, but not enough
@@ -537,6 +549,8 @@ func vcRunC07(t *vcTrial, cfg vc07Cfg) {
 			outcomes += "t"
 		default:
 			switch {
+			case class == "dataclose" && vc07BytesBeforeClose(vcTraceSince(rmark), vcConnID(conn), need):
+				t.Violate("C07", "error_with_bytes_buffered", "%s failed with %v although the %d awaited bytes were buffered (and the reader's wake-up sent) before the peer's close was processed, while the reader was parked: a read returns successfully once its bytes are buffered; the close came second", desc, res.err, need)
 			case peerClosed && !localClosed:
 				if !errors.Is(res.err, ErrEOF) {
 					t.Violate("C07", "error_class", "%s: the peer closed (no local Close) but the error is %v, want ErrEOF", desc, res.err)
@@ -715,4 +729,34 @@ func vcRunC07TimerTie(t *vcTrial, rounds int) {
 	t.Stat("read_timer_tie_timed_out", to)
 	t.Nontrivial = ok > 5 && to > 5
 	t.Sig = fmt.Sprintf("read-timer-tie|balanced=%v", t.Nontrivial)
+}
+
+// vc07BytesBeforeClose decides from the trace of one read whether the awaited bytes were buffered -
+// and the reader's wake-up token sent - before the peer's close was processed, while the reader
+// was parked in its wait (its last hook event before the data is a park event). Only then is a
+// failed read a violation; a reader that was between its length check and its close check when
+// both arrived may legitimately report the close.
+func vc07BytesBeforeClose(evs []vcEvent, id uintptr, need int) bool {
+	lastReader, iData, iHup := -1, -1, -1
+	for i, e := range evs {
+		if e.Obj != id {
+			continue
+		}
+		switch int(e.Point) {
+		case vpWaitReadPublished, vpWaitReadTOBeforeSelect, vpWaitReadTOTimer, vpWaitReadTOTrigger, vpWaitReadTORet, vpWaitReadBeforeBlock, vpWaitReadWoke:
+			if iData < 0 {
+				lastReader = int(e.Point)
+			}
+		case vpInputAckBeforeTrigger:
+			if iData < 0 && int(e.Arg) >= need {
+				iData = i
+			}
+		case vpOnHupAfterCloseBy, vpOnCloseWon:
+			if iHup < 0 {
+				iHup = i
+			}
+		}
+	}
+	parked := lastReader == vpWaitReadTOBeforeSelect || lastReader == vpWaitReadBeforeBlock
+	return parked && iData >= 0 && iHup > iData
 }
